@@ -105,6 +105,26 @@ def conc_case(args):
     programs = {0: block, 1: [small_op(False) for _ in range(rng.randint(1, 2))]}
     units = {0: [list(range(len(block)))], 1: [[i] for i in range(len(programs[1]))]}
     shared = rng.random() < 0.4
+    if forced and forced.get('both'):
+        # BOTH clients inside blocks on one SHARED Cache object: the window between one thread's
+        # COMMIT/ROLLBACK and its bookkeeping, with the other thread entering its own block there
+        abort, shared = forced['abort'], True
+        b0 = [{'m': 'tbegin', 'now': 1000}, {'m': 'set', 'now': 1000, 'k': 'a', 'v': BIG2, 'ttl': None, 'tag': None},
+              {'m': 'traise', 'now': 1000, 'n': 1} if abort else {'m': 'tend', 'now': 1000}]
+        b1 = [{'m': 'tbegin', 'now': 1000}, {'m': 'set', 'now': 1000, 'k': 'b', 'v': 'small', 'ttl': None, 'tag': None},
+              {'m': 'incr', 'now': 1000, 'k': 'n', 'delta': 1, 'default': 0}, {'m': 'tend', 'now': 1000}]
+        programs = {0: b0, 1: b1}
+        units = {0: [list(range(len(b0)))], 1: [list(range(len(b1)))]}
+        out = []
+        scheds = []
+        for k in range(0, 16):
+            for j in range(1, 9):
+                scheds.append([0] * k + [1] * j + [0] * 400 + [1] * 400)
+        for sch in scheds:
+            run = conc.run_concurrent(cfg, preset, programs, sch, shared=True)
+            why = conc.explain(run, programs, cfg, units=units)
+            out.append({'why': why, 'steps': run['steps'], 'sched': sch[:80] if why else None})
+        return {'seed': seed, 'programs': programs, 'shared': True, 'abort': abort, 'nested': False, 'results': out}
     if forced:
         # the windows around the end of a block: a block that aborts (or commits) on a SHARED object
         # while the other thread writes a file-backed value; every single-preemption point of the block
@@ -142,6 +162,8 @@ def run(tier, seed, rng, known, replay):
     jobs = [(s, tier) for s in seeds]
     for i, (abort, n, k) in enumerate([(True, 1, 'a'), (True, 2, 'b'), (False, 1, 'a'), (False, 2, 'b'), (True, 3, 'a'), (False, 3, 'b')]):
         jobs.append((rng.getrandbits(48), tier, {'abort': abort, 'n': n, 'k': k}))
+    for abort in (True, False):
+        jobs.append((rng.getrandbits(48), tier, {'both': True, 'abort': abort}))
     with ProcessPoolExecutor(max_workers=16) as ex:
         cases = list(ex.map(conc_case, jobs, chunksize=1))
     runs = 0
